@@ -23,7 +23,30 @@ def theorem_status(pid):
             "lean_wall_s": audit.get("_wall_s")}
 
 
+def apply_tie(pid, viol, cov):
+    """Tie mechanism A: per-site facts regenerated from /repo and re-checked by Lean `decide`.
+    A failed obligation means the property is no longer shown; the differential run of this check was
+    the search for a failing input; if it found none the violation is reported as such."""
+    mine, bad, st = L.tie_for(pid)
+    if not mine:
+        return
+    cov["tie_obligations"] = mine
+    cov["tie_obligations_failed"] = bad
+    cov["obligations"] = cov.get("obligations", 0) + len(mine)
+    cov["discharged"] = cov.get("discharged", 0) + len(mine) - len(bad)
+    cov["tie_extractor"] = st.get("extract_summary", "")[-400:]
+    cov.setdefault("trusted_base", []).append(
+        "harness/cmd/extract (fact extractor: go/ast, go/types, text/template/parse over %d files of /repo) and the reviewed tables in lean/CffVerif/Tie/Facts.lean" % st.get("files_read", 0))
+    if bad and not viol:
+        txt = ("property %s is no longer shown to hold: the tie obligation(s) %s of lean/CffVerif/Tie/Facts.lean no longer check\n"
+               "against the facts regenerated from /repo (lean/CffVerif/Extracted/Facts.lean).\n"
+               "The differential/trace search of this run found no failing input.\n\n%s\n" %
+               (pid, ", ".join("Tie." + b for b in bad), st.get("build_output", "")[-2500:]))
+        viol.append((C.write_replay(pid, "tie-%s.txt" % C.tree_hash()[:8], txt), "no-failing-input-found"))
+
+
 def finish(pid, tier, level, viol, known, cov, assumptions, wall):
+    apply_tie(pid, viol, cov)
     findings = C.load_findings()
     for k in known:
         print("KNOWN-FINDING: property=%s %s" % (pid, k), flush=True)
